@@ -1,7 +1,7 @@
 (* Extraction of the MP4 box-header model (area hdr, property C16 a,b) and of the lazy box tree with its accessor call sequences (C16 c).  ExtrOcamlBasic only. *)
 From Coq Require Import Extraction ExtrOcamlBasic ZArith NArith List.
 From Coq.Strings Require Import Byte.
-From MS Require Import Base.Bytes Base.Outcome Mp4.Header Mp4.Box Mp4.BoxLazy Mp4.BoxOps Mp4.BoxEdit.
+From MS Require Import Base.Bytes Base.Outcome Mp4.Header Mp4.Box Mp4.BoxLazy Mp4.BoxOps Mp4.BoxEdit Mp4.BoxFail.
 Extraction Language OCaml.
 Set Extraction KeepSingleton.
 
@@ -11,4 +11,4 @@ Extraction "model.ml"
   Header.hdr_read Header.hdr_put Header.encoded_len Header.box_size_of Header.box_data_size
   Header.with_u32_data_size Header.with_data_size Header.overwrite_size Header.hdr_wf Header.U32MAX
   Box.parse_moov Box.parse_boxes Box.parse_ftyp Box.put_node Box.put_nodes BoxLazy.nodes_encoded_len BoxOps.run_ops
-  BoxEdit.edit_trak BoxEdit.puts_calc BoxEdit.lens_calc.
+  BoxEdit.edit_trak BoxEdit.puts_calc BoxEdit.lens_calc BoxFail.run_ops_st.
